@@ -5,6 +5,7 @@ REGISTRY = {}
 for _f in ("fq", "fr", "fp"):
     REGISTRY[f"ops_{_f}"] = ("ops", _f)
     REGISTRY[f"wrap64_{_f}"] = ("wrap64", _f)
+    REGISTRY[f"fieldx_{_f}"] = ("fieldx", _f)
 
 _CACHE = {}
 
